@@ -98,6 +98,91 @@ pub struct C12Plan {
 
 const C12_A: usize = 41 * 21;
 const C12_B: usize = 5 * 35 * 2;
+/// twin generations: 5 lengths x 14 remarkable first values (8 byte patterns, first byte zero, a
+/// repeated adjacent word, a repeated distant word, three words in a row, low Hamming weight, high
+/// Hamming weight) against an unremarkable one, 20 further distinct values behind both
+const C12_T: usize = 5 * 14;
+
+fn has_repeated_word(e: &[u8]) -> bool {
+    let Some(p) = rm::bip39_encode(e) else { return false };
+    let mut w: Vec<&str> = p.split(' ').collect();
+    w.sort_unstable();
+    w.windows(2).any(|x| x[0] == x[1])
+}
+
+fn set_bits(e: &mut [u8], at: usize, n: usize, v: u32) {
+    for k in 0..n {
+        let bit = (v >> (n - 1 - k)) & 1;
+        let i = at + k;
+        if bit == 1 {
+            e[i / 8] |= 0x80 >> (i % 8);
+        } else {
+            e[i / 8] &= !(0x80 >> (i % 8));
+        }
+    }
+}
+
+pub fn c12_twin(idx: usize) -> NewCase {
+    let length = LENGTHS[idx / 14];
+    let k = idx % 14;
+    let ent_len = rm::entropy_len(length).unwrap();
+    let mut rng = fixed_rng(0xC127, idx);
+    let plain = |rng: &mut Rng| loop {
+        let e = rng.bytes(ent_len);
+        if !has_repeated_word(&e) && e[0] != 0 {
+            break e;
+        }
+    };
+    let first: Vec<u8> = match k {
+        0..=7 => pattern(k, ent_len),
+        8 => {
+            let mut e = plain(&mut rng);
+            e[0] = 0;
+            e
+        }
+        9 | 10 | 11 => {
+            // word 0 == word 1; word 1 == word 7; words 2, 3, 4 equal
+            let mut e = plain(&mut rng);
+            let w = rng.below(2048) as u32;
+            let at: &[usize] = match k {
+                9 => &[0, 1],
+                10 => &[1, 7],
+                _ => &[2, 3, 4],
+            };
+            for &i in at {
+                set_bits(&mut e, 11 * i, 11, w);
+            }
+            e
+        }
+        12 => {
+            let mut e = vec![0u8; ent_len];
+            e[rng.usize_below(ent_len)] = 1 << rng.below(8);
+            e
+        }
+        _ => {
+            let mut e = vec![0xffu8; ent_len];
+            e[rng.usize_below(ent_len)] ^= 1 << rng.below(8);
+            e
+        }
+    };
+    let mut entropy = vec![EntResp::ok(&first)];
+    for _ in 0..20 {
+        entropy.push(EntResp::ok(&plain(&mut rng)));
+    }
+    let e2 = idx % 3 == 2;
+    let mut c = NewCase {
+        length: Some(length.to_string()),
+        entropy,
+        tail: Some(EntResp::ok(&plain(&mut rng))),
+        reparse: true,
+        twin_first: Some(EntResp::ok(&plain(&mut rng))),
+        ..NewCase::default()
+    };
+    if e2 {
+        c.e2 = Some(e2_params(&mut rng, 0, 1));
+    }
+    c
+}
 
 fn c12_response(k: usize, len: usize, rng: &mut Rng) -> EntResp {
     let len = if len == 0 { 16 } else { len };
@@ -121,12 +206,17 @@ fn c12_response(k: usize, len: usize, rng: &mut Rng) -> EntResp {
 
 impl Plan for C12Plan {
     fn total(&self) -> usize {
-        C12_A + C12_B + self.seeded
+        C12_A + C12_B + C12_T + self.seeded
     }
     fn enumerated(&self) -> usize {
-        C12_A + C12_B
+        C12_A + C12_B + C12_T
     }
     fn case(&self, idx: usize) -> AnyCase {
+        if (C12_A + C12_B..C12_A + C12_B + C12_T).contains(&idx) {
+            return AnyCase::New(c12_twin(idx - C12_A - C12_B));
+        }
+        // the seeded cases keep the numbering they had before the twin family was added
+        let idx = if idx >= C12_A + C12_B + C12_T { idx - C12_T } else { idx };
         if idx < C12_A {
             // every requested length 0..=40 x every response kind, real binary
             let length = idx / 21;
